@@ -19,6 +19,72 @@ var Prefixes = []string{"-", "-", "a", "a/", "a/x", "ab", "ab/", "ab/c", "abc", 
 
 func pick[T any](r *rand.Rand, l []T) T { return l[r.Intn(len(l))] }
 
+// The "special" key universe: keys are opaque strings for the database, but not for every layer below and
+// above it — `:` separates database name and key (record.ParseKey), `/` and dot segments mean something to the
+// file tree, `%`, `#`, `?`, `*`, `\`, space, `~`, `^` to URLs, globs, escapes and this harness's own line protocol;
+// multi-byte runes and long names to anything that counts bytes. Keys that differ only behind a colon, by a
+// doubled / leading / trailing colon, by case of an escape or by one byte at the end of a long name must stay
+// different records.
+var (
+	longSeg = strings.Repeat("L", 200)
+	// KeysSpecialFS: prefix-free at path-segment boundaries and clean relative paths.
+	KeysSpecialFS = []string{
+		"conn/10.0.0.1:443", "conn/10.0.0.1:8080", "conn/10.0.0.1", "conn/10.0.0.2:443", "conn/[::1]:53",
+		"a:b", "a:b:c", "a::b", ":a", "a:", ":", "::", "a:c/c:d",
+		"a b", "a%20b", "a%3Ab", "q#1", "q?x=1&y=2", "s*", "s*r", `w\x`, `w\\x`, "n\u00e9/\u00fc", "\u65e5\u672c/\u30ad\u30fc", "~t", "^u", "a^20b", "...", "..a", "a..", ".h/.k",
+		longSeg, longSeg + "x", "long/" + longSeg[:180] + "/" + longSeg[:190] + ":1", "long/" + longSeg[:180] + "/" + longSeg[:190] + ":2",
+	}
+	// KeysSpecialAny additionally has names that are not clean relative paths (the file tree refuses them, every
+	// other backend takes them as they are) and keys that are path prefixes of other keys.
+	KeysSpecialAny = append(append([]string{}, KeysSpecialFS...),
+		"a//b", "a/./b", "a/b", "a/b/", "/a", "./a", "a/../b", "b", "a/..", "conn", "conn/", "a", "long")
+	// KeysUnclean are offered to the file tree now and then: it has to refuse them.
+	KeysUnclean = []string{"a//b", "a/./b", "a/b/", "/a", "./a", "a/../b", "a/..", "conn/", "../x", ".", "..", "x/../../y"}
+	// PrefixesSpecial: query prefixes with the same characters — ending inside a segment, at a colon, after it.
+	PrefixesSpecial = []string{"-", "-", "conn/", "conn/10.0.0.1", "conn/10.0.0.1:", "conn/10.0.0.1:4", "conn/10.0.0.1:8080", "conn/10.0.0.1:80800", "conn/[", "conn/[:",
+		"a:", "a:b", "a:b:", "a::", ":", "::", ":::", "a ", "a%", "a%2", "q", "q?", "q#", "s*", `w\`, `w\\`, "n\u00e9", "n\u00e9/", "\u65e5", "~", "^", "a^", ".", "..", "a.", "a/", "a//", "a/.", "a/./", "./",
+		"long/", longSeg[:199], longSeg, "long/" + longSeg[:180] + "/" + longSeg[:190] + ":"}
+)
+
+// Universe picks the key space of a history: mostly the plain one, sometimes the special one. Keys and
+// prefixes are returned as protocol tokens (EncKey).
+func Universe(r *rand.Rand, backend string) (keys, prefixes []string, name string) {
+	if r.Intn(4) != 0 {
+		return Keys(backend), Prefixes, "plain"
+	}
+	ks, ps := KeysSpecialAny, PrefixesSpecial
+	if backend == "f" {
+		ks = KeysSpecialFS
+	}
+	// a history works on a sample of the universe, so that keys are revisited
+	idx := r.Perm(len(ks))
+	n := 10 + r.Intn(8)
+	if n > len(idx) {
+		n = len(idx)
+	}
+	for _, i := range idx[:n] {
+		keys = append(keys, EncKey(ks[i]))
+	}
+	// the colon family is always there
+	for _, k := range []string{"conn/10.0.0.1:443", "conn/10.0.0.1:8080", "conn/10.0.0.1", "a:b", "a:b:c"} {
+		keys = append(keys, EncKey(k))
+	}
+	if backend == "f" && r.Intn(2) == 0 {
+		keys = append(keys, EncKey(pick(r, KeysUnclean)))
+	}
+	for _, p := range ps {
+		if backend == "f" && p == ".." {
+			continue // resolves to the directory above the database: the file tree refuses the query
+		}
+		if p == "-" {
+			prefixes = append(prefixes, "-")
+		} else {
+			prefixes = append(prefixes, EncKey(p))
+		}
+	}
+	return keys, prefixes, "special"
+}
+
 // Keys returns the key universe of a backend.
 func Keys(backend string) []string {
 	if backend == "f" {
